@@ -68,3 +68,37 @@ func (g *Graph) paramIndex(v *types.Var) int {
 }
 
 var litGraphCache = map[*ast.FuncLit]*Graph{}
+
+// CondExprs lists the branch conditions of the function.
+func (g *Graph) CondExprs() []ast.Expr {
+	var out []ast.Expr
+	for _, b := range g.live {
+		if c := condOf(b); c != nil {
+			out = append(out, c)
+		}
+	}
+	return out
+}
+
+// InNonNilArmOf reports whether location l lies in an arm that is entered only when the local
+// variable named varName was found non-nil by a branch condition.
+func (f *Fn) InNonNilArmOf(varName string, l Loc) bool {
+	for _, b := range f.live {
+		c := condOf(b)
+		if c == nil {
+			continue
+		}
+		t, fl := f.condFacts(c)
+		for _, v := range t {
+			if v.Name() == varName && len(f.predsOf(b.Succs[0])) == 1 && f.BlockDom(b.Succs[0], l.Blk) {
+				return true
+			}
+		}
+		for _, v := range fl {
+			if v.Name() == varName && len(f.predsOf(b.Succs[1])) == 1 && f.BlockDom(b.Succs[1], l.Blk) {
+				return true
+			}
+		}
+	}
+	return false
+}
